@@ -557,7 +557,7 @@ class LineCoverageInstrumentation(python3_10.LineCoverageInstrumentation):
     instructions_generator = Python311InstrumentationInstructionsGenerator
 
     def should_instrument_line(self, instr: Instr, lineno: int | _UNSET | None) -> bool:  # noqa: D102
-        return instr.lineno != lineno and instr.name != "RESUME"
+        return super().should_instrument_line(instr, lineno) and instr.name != "RESUME"
 
 
 class CheckedCoverageInstrumentation(python3_10.CheckedCoverageInstrumentation):
